@@ -71,7 +71,7 @@ func init() {
 		ID: "T01", NeedCG: true, Quick: cfgAMD, Thorough: cfgAll,
 		Explanation: "scratch",
 		Run: func(w *World, r *Report, tier string) {
-			guard(r, "OWN", func() { ruleOWN(w, r, ownOpts{true, true, true}) })
+			guard(r, "RANGE", func() { ruleRANGE(w, r, []string{"gf2p16", "gf2", "rsec16", "par1", "par2", "cmd/par"}, 10) })
 		},
 	})
 }
